@@ -210,6 +210,10 @@ def expected(afile):
             desc[TAG_FWVER] = int(h["fwid"]).to_bytes(2, "big") + bytes(int(x) for x in h["version"].split("."))
         proto = instrs.get("SELECT_IF")
         if proto is not None and proto != "*":
+            if proto not in INTERFACES:
+                # an interface BF3 has no code for: the importer leaves this section out (taken as given); whatever was stated for it
+                # (checksum, version, reboot) concerns THIS section only and must not show up on a later one
+                continue
             desc[TAG_INTF] = bytes([INTERFACES[proto]])
         blob = b"".join(raws) if k["fmt"] == FMT_COMPAT else s["image"]
         comps.append(dict(desc=desc, blob=blob, type=k["type"], filter=flt, name=k.get("name")))
